@@ -17,7 +17,7 @@ func (c16) Size(tier string) Size {
 	if tier == "thorough" {
 		return Size{Batches: 16, Cases: 25000}
 	}
-	return Size{Batches: 4, Cases: 1500}
+	return Size{Batches: 16, Cases: 4000}
 }
 func (c16) Rule() string {
 	return "directed: ALL Rel values with type and relationship names in {a,b,aa,ab,ba,bb} (inverse name also empty) x 4 cardinality combinations, plus the same over names with '_' and '-'; generated: random Rel values over a colliding name pool, and coherent schemas (Check empty, FromType = owner, one-way and two-way relationships) materialised in several type/field insertion orders with Rels() called repeatedly. Oracle: algebraic laws on Invert/Normalize/String and my own pairing of the schema's relationships. The name pool has case variants (a/A, ab/Ab/aB/AB, é/É), padded names and names with quotes. Non-trivial = two-way relationship or schema with >= 2 relationships."
